@@ -2133,6 +2133,9 @@ def h_option_reduce(pattern, parents_c, positions, cls='IndexedOptionArray64', i
     nc.m.eng.stubs['vf$slot%d' % nc.slot('12branch_depthEv')] = lambda eng, fr, ins, st, name, argv: [z3.BitVecVal(0, 8), BV(1)]
     if cls == 'IndexedOptionArray64':
         this, idx = build_option64(nc, pattern)
+    elif cls == 'IndexedArray64':
+        assert not any(pattern)
+        this, idx = build_option64(nc, pattern, option=False)
     else:
         this, _mk = build_bytemasked(nc, pattern, True)
         idx = [BV(i) for i in range(n)]
@@ -2159,7 +2162,9 @@ def h_option_reduce(pattern, parents_c, positions, cls='IndexedOptionArray64', i
             nc.m.assume(v >= 0, v <= 1000)
     parents, starts, shifts = mk('parents', pdata, n), mk('starts', sdata, G), (mk('shifts', shdata, n) if incoming else mk('shifts', NULL, 0))
     nc.m.record('ret', {})
-    cands = [f for mod_ in nc.m.eng.mods for f in mod_.func_src if f.startswith(('_ZNK7awkward14IndexedArrayOfIlLb1EE11reduce_nextERKNS_7ReducerEl' if cls == 'IndexedOptionArray64' else '_ZNK7awkward15ByteMaskedArray11reduce_nextERKNS_7ReducerEl'))]
+    entry = {'IndexedOptionArray64': '_ZNK7awkward14IndexedArrayOfIlLb1EE11reduce_nextERKNS_7ReducerEl', 'IndexedArray64': '_ZNK7awkward14IndexedArrayOfIlLb0EE11reduce_nextERKNS_7ReducerEl',
+             'ByteMaskedArray': '_ZNK7awkward15ByteMaskedArray11reduce_nextERKNS_7ReducerEl'}[cls]
+    cands = [f for mod_ in nc.m.eng.mods for f in mod_.func_src if f.startswith(entry)]
     out = nc.m.call(cands[0], [Ptr('ret', 0), this, reducer, BV(1), starts, shifts, parents, BV(G), z3.BitVecVal(0, 1), z3.BitVecVal(0, 1)])
     obls = [('reduce_next does not raise', out.raised), ('the content is asked', z3.Not(z3.Or([ob['pc'] for ob in seen] + [z3.BoolVal(False)])))]
     valid = [i for i, m_ in enumerate(pattern) if not m_]
@@ -2173,7 +2178,9 @@ def h_option_reduce(pattern, parents_c, positions, cls='IndexedOptionArray64', i
         else:
             for k, i in enumerate(valid):
                 obls.append(('parent of valid entry %d is the group of its position' % k, z3.And(g, ob['parents'][k] != parents_c[i])))
-        if positions:
+        if cls == 'IndexedArray64' and not incoming:
+            pass            # nothing is missing and nothing came in: no shifts are needed (an empty index stands for all zero)
+        elif positions:
             if len(ob['shifts']) != len(valid):
                 obls.append(('one shift per valid entry for a position-returning reducer', g))
             else:
@@ -2217,7 +2224,7 @@ def h_option_reduce(pattern, parents_c, positions, cls='IndexedOptionArray64', i
         # a fixed witness: ragged rows [[4], [1, x, 2], [6, 3]] (x = 9, or None when the pattern has a missing entry) reduced across the rows:
         # the enclosing list hands shifts in (rows too short for a column), the option node must pass them on
         miss = any(pattern)
-        node = ('bytemask %s 1 ' % fullnative.ints([1, 1, 0 if miss else 1, 1, 1, 1])) if cls == 'ByteMaskedArray' else ('option64 %s ' % fullnative.ints([0, 1, -1 if miss else 2, 3, 4, 5]))
+        node = ('bytemask %s 1 ' % fullnative.ints([1, 1, 0 if miss else 1, 1, 1, 1])) if cls == 'ByteMaskedArray' else ('%s %s ' % ('indexed64' if cls == 'IndexedArray64' else 'option64', fullnative.ints([0, 1, -1 if miss else 2, 3, 4, 5])))
         prog = 'i64 6 4 1 9 2 6 3 ' + node + 'listoffset64 4 0 1 4 6 reduce %s 0 0 0' % ('argmax' if positions else 'sum')
         if positions:
             exp = [2, 2, 1] if miss else [2, 1, 1]
@@ -2238,6 +2245,10 @@ def jobs_option_reduce(tier):
             js.append((h_option_reduce, (p, par, pos, 'ByteMaskedArray'), 1800))
             js.append((h_option_reduce, (p, par, pos, 'ByteMaskedArray', True), 1800))
             js.append((h_option_reduce, (p, par, pos, 'IndexedOptionArray64', True), 1800))
+    for p, par in [((0, 0, 0), [0, 0, 1]), ((0, 0), [0, 0])]:
+        for pos in (False, True):
+            for inc_ in (False, True):
+                js.append((h_option_reduce, (p, par, pos, 'IndexedArray64', inc_), 1800))
     return js
 
 
@@ -5028,7 +5039,7 @@ def h_option_sort(pattern, parents_c):
         return None
     nc.m.eng.stubs['vf$slot%d' % nc.slot('9sort_nextElRKNS_7IndexOfIlEES4_lbb')] = s_sort_next
     nc.m.eng.stubs['vf$slot%d' % nc.slot('12branch_depthEv')] = lambda eng, fr, ins, st, name, argv: [z3.BitVecVal(0, 8), BV(1)]
-    this, idx = build_option64(nc, pattern)
+    this, idx = build_option64(nc, pattern, option=option)
     G = max(parents_c) + 1 if parents_c else 1
     first_of = {g: sum(1 for p in parents_c if p < g) for g in range(G)}        # groups are contiguous and in order: group g starts after all entries of the earlier groups
 
@@ -5552,7 +5563,7 @@ def h_option_sort_above(pattern, parents_c, arg, lens=None):
     nc.m.eng.stubs['_ZNK7awkward17ListOffsetArrayOfIlE9mergeableE*'] = lambda eng, fr, ins, st, name, argv: z3.BitVecVal(0, 1)
     # the content is a list level above the leaves: branch_depth() = (false, 2); negaxis = 1 sorts the leaves
     nc.m.eng.stubs['vf$slot%d' % nc.slot('12branch_depthEv')] = lambda eng, fr, ins, st, name, argv: [z3.BitVecVal(0, 8), BV(2)]
-    this, idx = build_option64(nc, pattern)
+    this, idx = build_option64(nc, pattern, option=option)
     G = max(parents_c) + 1 if parents_c else 1
     first_of = {g: sum(1 for p in parents_c if p < g) for g in range(G)}        # groups are contiguous and in order: group g starts after all entries of the earlier groups
 
@@ -5630,10 +5641,20 @@ def jobs_option_sort_above(tier):
 
 # ------------------------------------------------------------------------------------------------ C06: argsort with missing values at the sorted level
 @guard
-def h_option_argsort(pattern, parents_c):
+def h_option_argsort(pattern, parents_c, rows=None, option=True):
     """IndexedOptionArray64::argsort_next at the leaf level: the content is handed exactly the valid entries, in order, each with the group of
     its position; in the answer every group keeps its number of entries: first what the content answered for that group's valid entries, then the
-    positions (inside the group) of the group's missing entries, in order - missing values sort last"""
+    positions (inside the group) of the group's missing entries, in order - missing values sort last. With `rows` (lists of 0 = value / 1 = missing)
+    the node is called the way the list above it calls it for a sort across the lists (axis 0 of a jagged array): the groups are the columns and
+    every entry comes with the number of rows before its own that do not reach its column; the position of a missing entry is then its row"""
+    shifts_c = []
+    if rows is not None:
+        rows = [list(r) for r in rows]
+        ncols = max([len(r) for r in rows] + [0])
+        cells_ = [(c, r) for c in range(ncols) for r in range(len(rows)) if len(rows[r]) > c]
+        pattern = [rows[r][c] for c, r in cells_]
+        parents_c = [c for c, r in cells_]
+        shifts_c = [sum(1 for r2 in range(r) if len(rows[r2]) <= c) for c, r in cells_]
     pattern = tuple(map(bool, pattern))
     parents_c = list(parents_c)
     n = len(pattern)
@@ -5645,7 +5666,8 @@ def h_option_argsort(pattern, parents_c):
     def s_argsort_next(eng, fr, ins, st, name, argv):
         sret, selfp, negaxis, starts, shifts, parents_, outl, asc, stb = argv
         nm, info = nc.content_info(selfp, st, eng)
-        seen.append(dict(pc=st.pc, info=info, negaxis=negaxis, parents=nc.index_terms(st.mem, parents_, 'parents')[0], outlength=outl, asc=asc, stb=stb))
+        seen.append(dict(pc=st.pc, info=info, negaxis=negaxis, parents=nc.index_terms(st.mem, parents_, 'parents')[0], outlength=outl, asc=asc, stb=stb,
+                         shifts=nc.index_terms(st.mem, shifts, 'shifts')[0]))
         nc._ret(st, sret, nc.fresh_content(eng, st, info['length'], z3.Lambda([kk], S(kk)), derived='sorted'))
         return None
 
@@ -5675,7 +5697,7 @@ def h_option_argsort(pattern, parents_c):
     nc.m.eng.stubs['vf$slot%d' % nc.slot('9mergemanyERKSt6vector')] = s_mergemany
     nc.m.eng.stubs['vf$slot%d' % nc.slot('9mergeableERKSt10shared_ptrINS_7ContentEEb')] = lambda eng, fr, ins, st, name, argv: z3.BitVecVal(1, 1)
     nc.m.eng.stubs['vf$slot%d' % nc.slot('12branch_depthEv')] = lambda eng, fr, ins, st, name, argv: [z3.BitVecVal(0, 8), BV(1)]
-    this, idx = build_option64(nc, pattern)
+    this, idx = build_option64(nc, pattern, option=option)
     G = max(parents_c) + 1 if parents_c else 1
     first_of = {g: sum(1 for p in parents_c if p < g) for g in range(G)}        # groups are contiguous and in order: group g starts after all entries of the earlier groups
 
@@ -5687,10 +5709,10 @@ def h_option_argsort(pattern, parents_c):
         cells = {}
         nc.index_cells(cells, 0, d, BV(0), BV(len(vals)))
         return nc.m.record(name, cells, const=True)
-    parents, starts, shifts = index64('parents', parents_c), index64('starts', [first_of[g] for g in range(G)]), index64('shifts', [])
+    parents, starts, shifts = index64('parents', parents_c), index64('starts', [first_of[g] for g in range(G)]), index64('shifts', shifts_c)
     asc, stb = nc.m.bv('ascending', 1), nc.m.bv('stable', 1)
     nc.m.record('ret', {})
-    cands = [f for mod_ in nc.m.eng.mods for f in mod_.func_src if f.startswith('_ZNK7awkward14IndexedArrayOfIlLb1EE12argsort_nextE')]
+    cands = [f for mod_ in nc.m.eng.mods for f in mod_.func_src if f.startswith('_ZNK7awkward14IndexedArrayOfIlLb%dEE12argsort_nextE' % (1 if option else 0))]
     out = nc.m.call(cands[0], [Ptr('ret', 0), this, BV(1), starts, shifts, parents, BV(G), asc, stb])
     obls = [('argsort_next does not raise', out.raised), ('the content is asked', z3.Not(z3.Or([ob['pc'] for ob in seen] + [z3.BoolVal(False)])))]
     valid = [i for i, m_ in enumerate(pattern) if not m_]
@@ -5705,11 +5727,18 @@ def h_option_argsort(pattern, parents_c):
             for k, i in enumerate(valid):
                 obls.append(('group of valid entry %d is the group of its position' % k, z3.And(g, ob['parents'][k] != parents_c[i])))
         obls.append(('direction, stability, negaxis and the number of groups are handed on unchanged', z3.And(g, z3.Or(ob['asc'] != asc, ob['stb'] != stb, ob['negaxis'] != 1, ob['outlength'] != G))))
+        if option or shifts_c:
+            if len(ob['shifts']) != len(valid):
+                obls.append(('one shift per valid entry', g))
+            else:
+                for k, i in enumerate(valid):
+                    ws = sum(1 for j in range(i) if pattern[j]) + (shifts_c[i] if shifts_c else 0)
+                    obls.append(('shift of valid entry %d counts the missing entries before it%s' % (k, ' on top of the shift that came in with it' if shifts_c else ''), z3.And(g, ob['shifts'][k] != ws)))
     want = []
     for gi in range(G):
         members = [i for i, p in enumerate(parents_c) if p == gi]
         ks = [k for k, i in enumerate(valid) if parents_c[i] == gi]
-        nulls = [r for r, i in enumerate(members) if pattern[i]]
+        nulls = [r + (shifts_c[i] if shifts_c else 0) for r, i in enumerate(members) if pattern[i]]
         want += [Elem(S(BV(k))) for k in ks] + [Elem(BV(r)) for r in nulls]
     for g, res in nodeh.decode_cases(nc, out.mem, nc.m.cell('ret', 0)):
         if res is None:
@@ -5729,14 +5758,30 @@ def h_option_argsort(pattern, parents_c):
         for c in counts:
             acc += c; oo.append(acc)
         entries = [None if v < 0 else vals[v] for v in iv]
-        prog = 'i64 %s option64 %s listoffset64 %s argsort 1 %d 1' % (fullnative.ints(vals), fullnative.ints(iv), fullnative.ints(oo), 1 if a_ else 0)
+        if rows is not None:
+            # back to the jagged array itself: entry k of the node is cell (column, row) k, column by column
+            at = {(r, c): entries[k] for k, (c, r) in enumerate(cells_)}
+            pos = {(r, c): k for k, (c, r) in enumerate(cells_)}
+            flat = [(r, c) for r in range(len(rows)) for c in range(len(rows[r]))]
+            roff = [0]
+            for r_ in rows:
+                roff.append(roff[-1] + len(r_))
+            prog = 'i64 %s %s %s listoffset64 %s argsort 0 %d 1' % (fullnative.ints(vals), 'option64' if option else 'indexed64', fullnative.ints([iv[pos[rc]] for rc in flat]), fullnative.ints(roff), 1 if a_ else 0)
+            col = {}
+            for c in range(ncols):
+                have = [r for r in range(len(rows)) if len(rows[r]) > c]
+                pres = sorted([r for r in have if at[(r, c)] is not None], key=lambda r: ((at[(r, c)] if a_ else -at[(r, c)]), r))
+                col[c] = dict(zip(have, pres + [r for r in have if at[(r, c)] is None]))
+            exp = [[col[c][r] for c in range(len(rows[r]))] for r in range(len(rows))]
+            return akrun_check(prog, exp, 'argsort(axis=0, ascending=%s, stable) of the lists %s' % (a_, [[at[(r, c)] for c in range(len(rows[r]))] for r in range(len(rows))]))
+        prog = 'i64 %s %s %s listoffset64 %s argsort 1 %d 1' % (fullnative.ints(vals), 'option64' if option else 'indexed64', fullnative.ints(iv), fullnative.ints(oo), 1 if a_ else 0)
         exp = []
         for gi in range(G):
             grp = entries[oo[gi]:oo[gi + 1]]
             pres = sorted([j for j in range(len(grp)) if grp[j] is not None], key=lambda j: ((grp[j] if a_ else -grp[j]), j))
             exp.append(pres + [j for j in range(len(grp)) if grp[j] is None])
         return akrun_check(prog, exp, 'argsort(axis=1, ascending=%s, stable) of lists %s of option-type numbers %s' % (a_, counts, entries))
-    return mdischarge(nc.m, 'IndexedOptionArray64::argsort_next pattern=%s groups=%s' % (''.join('N' if p else 'v' for p in pattern), parents_c), obls, [], replay=replay, prefer=[nc.lencontent <= 8],
+    return mdischarge(nc.m, '%s::argsort_next pattern=%s groups=%s%s' % ('IndexedOptionArray64' if option else 'IndexedArray64', ''.join('N' if p else 'v' for p in pattern), parents_c, ' shifts=%s' % shifts_c if shifts_c else ''), obls, [], replay=replay, prefer=[nc.lencontent <= 8],
                       extra=dict(bounds='%d entries, missing pattern and groups concrete (case split), index values, direction and stability symbolic' % n))
 
 
@@ -5744,7 +5789,13 @@ def jobs_option_argsort(tier):
     q = [((0, 1, 0), (0, 0, 0)), ((1, 0, 0, 1), (0, 0, 1, 1)), ((1, 1), (0, 0)), ((0, 0), (0, 1))]
     if tier != 'quick':
         q += [((0, 1, 1, 0, 1), (0, 0, 1, 1, 1)), ((1,), (0,)), ((0, 1, 0, 1), (0, 1, 1, 2)), ((0, 0, 0), (0, 0, 0)), ((1, 1, 0), (0, 1, 1)), ((1, 0, 1), (0, 2, 2))]
-    return [(h_option_argsort, a, 1800) for a in q]
+    rows = [([[0, 0, 1], [], [0, 0], [0, 1, 0]],), ([[1], [], [0]],)]
+    if tier != 'quick':
+        rows += [([[0, 1], [0], [1, 0], [], [0, 1]],), ([[], [1, 0], [0, 1]],), ([[0, 0], [1, 1]],)]
+    plain = [((0, 0, 0), (0, 0, 1), None, False), ((), (), [[], [0, 0], [0]], False)]
+    if tier != 'quick':
+        plain += [((), (), [[0], [], [0, 0], [0]], False), ((0, 0), (0, 0), None, False)]
+    return [(h_option_argsort, a, 1800) for a in q] + [(h_option_argsort, ((), (), r[0]), 1800) for r in rows] + [(h_option_argsort, a, 1800) for a in plain]
 
 
 # ------------------------------------------------------------------------------------------------ C06: argsort of strings with missing values taken out
